@@ -15,6 +15,7 @@ SCRATCH = '/dev/shm' if os.path.isdir('/dev/shm') and os.access('/dev/shm', os.W
 import clastic.static as cstatic
 import clastic.meta as cmeta
 from clastic import Application, Response, Route, GET, Middleware, render_basic, redirect
+from clastic.render import render_json
 from clastic.application import RerouteWSGI
 from clastic.static import StaticApplication
 from clastic.meta import MetaApplication
@@ -34,13 +35,13 @@ WATCH = (os.path.join(runner.REPO, 'clastic') + os.sep, '<sinter')
 
 ROUTES = ['ok', 'stream', 'ctx', 'static-small', 'static-big', 'static-empty', 'static-empty', 'static-missing', 'static-oddtime', 'static-oddtime', 'reroute-branch', 'reroute-branch-noslash', 'reroute-branch-dslash', 'reroute-app', 'reroute-app', 'branch', 'missing', 'm405', 'boom',
           'http403', 'meta', 'meta-json', 'gz', 'cache', 'reroute-raise', 'reroute-ep', 'reroute-fn-ep', 'reroute-deco-raise', 'sub-ok', 'empty', 'bytes-big',
-          'static-noext-big', 'static-noext-big', 'static-noext-small', 'branch-ctl1', 'branch-ctl2', 'branch-ctl3', 'http520', 'http520']
+          'static-noext-big', 'static-noext-big', 'static-noext-small', 'branch-ctl1', 'branch-ctl2', 'branch-ctl3', 'http520', 'http520', 'ctx-surrogate', 'ctx-surrogate', 'target-fails-late', 'target-fails-late']
 PATH = {'ok': '/ok', 'stream': '/stream', 'ctx': '/ctx', 'static-small': '/s/a.txt', 'static-big': '/s/big.bin',
         'static-missing': '/s/nope', 'static-empty': '/s/empty.txt', 'static-oddtime': '/s/odd.txt', 'reroute-branch': '/rb/', 'reroute-branch-noslash': '/rb',
         'reroute-branch-dslash': '/rb//', 'reroute-app': '/r3/some/path', 'branch': '/b', 'missing': '/missing', 'm405': '/g', 'boom': '/boom',
         'http403': '/forbidden', 'meta': '/meta/', 'meta-json': '/meta/json/', 'gz': '/gz', 'cache': '/cache',
         'reroute-raise': '/rr', 'reroute-ep': '/r2', 'reroute-fn-ep': '/r4', 'reroute-deco-raise': '/r5',
-        'http520': '/http520', 'branch-ctl1': '/bx/q%01', 'branch-ctl2': '/bx/a%00b%1F', 'branch-ctl3': '/bx/%7F%0B%1B[31m',
+        'http520': '/http520', 'ctx-surrogate': '/ctxs', 'target-fails-late': '/rfail', 'branch-ctl1': '/bx/q%01', 'branch-ctl2': '/bx/a%00b%1F', 'branch-ctl3': '/bx/%7F%0B%1B[31m',
         'static-noext-big': '/s/LICENSE', 'static-noext-small': '/s/README', 'sub-ok': '/in/x', 'empty': '/empty', 'bytes-big': '/big'}
 METHODS = ['GET', 'GET', 'HEAD', 'POST', 'OPTIONS']
 HEADER_SETS = [{'If-Modified-Since': 'Fri, 01 Jan 2100 00:00:00 GMT'}, {'If-Modified-Since': 'Thu, 01 Jan 1970 00:00:10 GMT'},
@@ -187,7 +188,7 @@ class C13(Check):
     level_text = ('Seeded search over server behaviours x response kinds x wrapper stacks with a protocol monitor; the '
                   'route-kind x method x consumption x file-wrapper grid is swept once per run for a sampled wrapper stack.')
     level_note = 'Trusted: wsgiref.validate as the reading of PEP 3333; the monitor in sim/core/gateway.py.'
-    required_probes = ('error-handler-switched-after-construction', 'environ-without-optional-keys', 'query-string-of-raw-bytes', 'range-request-on-static-file', 'wrapper-object-falsy-at-construction', 'filesystem-error-after-the-file-was-opened', 'big-file-without-extension-served', 'reroute-target-with-other-parameter-names', 'wrapper-passes-copy-of-environ', 'wrapper-decorates-start-response', 'empty-file-through-server-file-wrapper', 'reroute-to-wrapped-application', 'conditional-static-304', 'reroute-through-rewritten-path', 'first-requests-concurrent', 'file-released-after-abort', 'file-released-without-iteration', 'head-no-body', 'reroute-same-environ',
+    required_probes = ('reroute-target-fails-after-start-response', 'error-handler-switched-after-construction', 'environ-without-optional-keys', 'query-string-of-raw-bytes', 'range-request-on-static-file', 'wrapper-object-falsy-at-construction', 'filesystem-error-after-the-file-was-opened', 'big-file-without-extension-served', 'reroute-target-with-other-parameter-names', 'wrapper-passes-copy-of-environ', 'wrapper-decorates-start-response', 'empty-file-through-server-file-wrapper', 'reroute-to-wrapped-application', 'conditional-static-304', 'reroute-through-rewritten-path', 'first-requests-concurrent', 'file-released-after-abort', 'file-released-without-iteration', 'head-no-body', 'reroute-same-environ',
                        'custom-file-wrapper-used', 'debug-500', 'gzip-applied')
 
     def generate(self, seed, tier):
@@ -285,6 +286,15 @@ class C13(Check):
         def rr():
             raise RerouteWSGI(target)
 
+        def ctx_surrogate():
+            # a context holding a string no UTF-8 encoder accepts (an fsdecode()d file name)
+            return {'file': 'caf\udce9.conf', 'n': 1}
+
+        # a reroute target that announces its response and THEN fails (before returning its iterable)
+        def failing_target(environ, start_response):
+            start_response('200 OK', [('Content-Type', 'text/plain'), ('X-Target', 'failing')])
+            raise RuntimeError('the reroute target failed after start_response')
+
         def http520():
             # a status code the HTTP library has no phrase for, with the application's own wording
             from clastic.errors import HTTPException
@@ -316,7 +326,7 @@ class C13(Check):
                   ('/b/', ok), ('/bx/<x>/', lambda x: ok()), GET('/g', ok), ('/boom', boom), ('/forbidden', forbidden), ('/meta/', MetaApplication()),
                   Route('/gz', compressible, middlewares=[GzipMiddleware()]),
                   Route('/cache', ok, middlewares=[HTTPCacheMiddleware()]),
-                  ('/http520', http520), ('/rr', rr), ('/r2', RerouteWSGI(target)), ('/r4', RerouteWSGI(legacy_app)), ('/r5', rr5), ('/rb/', RerouteWSGI(target)),
+                  ('/http520', http520), ('/ctxs', ctx_surrogate, render_json), ('/rfail', RerouteWSGI(failing_target)), ('/rr', rr), ('/r2', RerouteWSGI(target)), ('/r4', RerouteWSGI(legacy_app)), ('/r5', rr5), ('/rb/', RerouteWSGI(target)),
                   ('/r3/<rest*>', RerouteWSGI(target.inner_app)), ('/in', inner), ('/empty', empty), ('/big', big),
                   ('/in2', Application([('/y', ok)], middlewares=objs('t', cfg.get('sib_wrappers', []))))]
         app = Application(routes, middlewares=objs('o', cfg['outer_wrappers']), debug=cfg['debug'],
@@ -457,6 +467,15 @@ class C13(Check):
             res.fire('head')
         if fw is not None:
             res.fire('file_wrapper:' + op['fw'])
+        if route == 'target-fails-late':
+            # the target's failure is the target's (it reaches the server); what the target announced was announced ONCE
+            res.probe('reroute-target-fails-after-start-response')
+            if len(ex.start_calls) != 1 or ex.start_calls[0][0] != '200 OK':
+                res.violate(K + 'start_response-calls:%d@%s' % (len(ex.start_calls), route),
+                            ctx + ' -> start_response called %d times: %r' % (len(ex.start_calls), [c[0] for c in ex.start_calls]), step)
+            elif ex.escaped is None or type(ex.escaped).__name__ != 'RuntimeError':
+                res.violate(K + 'reroute-target-failure-not-relayed', ctx + ' -> %r' % (ex.escaped,), step)
+            return
         # --- protocol ---------------------------------------------------------
         if ex.escaped is not None and ex.escaped_phase in ('iter', 'close') and any(site == 'read' for _, site, _ in fs_fired):
             # a read error while the body is being sent: the server sees the exception (nothing else is possible
@@ -564,7 +583,7 @@ class C13(Check):
             return
         # --- a few status expectations (the rest is C06/C08 territory) -------
         expect = {'ok': 200, 'stream': 200, 'ctx': 200, 'static-small': 200, 'static-big': 200, 'static-empty': 200, 'static-noext-big': 200, 'static-noext-small': 200, 'static-missing': 404,
-                  'branch': 302, 'missing': 404, 'boom': 500, 'http403': 403, 'http520': 520, 'meta': 200, 'meta-json': 200, 'gz': 200,
+                  'branch': 302, 'missing': 404, 'boom': 500, 'http403': 403, 'http520': 520, 'ctx-surrogate': 200, 'meta': 200, 'meta-json': 200, 'gz': 200,
                   'cache': 200, 'sub-ok': 200, 'empty': 200, 'bytes-big': 200}
         want = expect.get(route)
         if 'Range' in op['headers'] and route.startswith('static'):
